@@ -416,6 +416,12 @@ type variant struct {
 // "Invalid left-hand side of assignment" rejection is accepted as well (the grammar allows any
 // expression there, the parser is stricter; the property only speaks about the tree that is built).
 func (a *acc) judgeExpr(gen string, want *exprgen.Node, ctx *context, vs []variant) {
+	a.judgeExprOpt(gen, want, ctx, vs, false)
+}
+
+// judgeExprOpt: with layoutOnly the intended tree is not demanded (the construct is outside what
+// the operator table fixes); every rendering must still be accepted and give the base's tree.
+func (a *acc) judgeExprOpt(gen string, want *exprgen.Node, ctx *context, vs []variant, layoutOnly bool) {
 	plain := want.PlainAssignTargets()
 	if a.example == "" || want.CountOps() >= 3 {
 		a.example = vs[len(vs)-1].src
@@ -446,6 +452,9 @@ func (a *acc) judgeExpr(gen string, want *exprgen.Node, ctx *context, vs []varia
 				a.fail("reject:"+gen+":"+variantClass(v.kind)+":"+p.class, fmt.Sprintf("a grammatical expression was rejected (%s): %q; intended tree %s", p.message, util.Clip(v.src, 300), want.Sexp()), detail(nil))
 				continue
 			}
+		} else if layoutOnly {
+			a.multiOp = true // layout cases: non-trivial = base accepted and a differing variant compared
+			a.obs["layout_only_sources"]++
 		} else {
 			e, ok := ctx.extract(p.prog)
 			if !ok {
